@@ -479,6 +479,10 @@ def contract_call(X, ins, key, c, argv, iface_sig=None):
                 conds.append(r <= pre.get(ak))
             X.hyp(z3.ForAll([r], z3.Implies(z3.And(*conds) if conds else z3.BoolVal(True), nv[r] == oldv[r]), patterns=[nv[r]]))
             post.set(hk, nv)
+        for (pk_, pa_) in getattr(V, 'private_arrays', ()):
+            a_, b_ = post.get(pk_), pre.get(pk_)
+            if not a_.eq(b_):
+                X.hyp(a_[pa_] == b_[pa_])
         # function-typed arguments: the callee may call them any number of times
         from .modset import func_modset
         for a in argv:
